@@ -25,6 +25,27 @@ FS_CALL = re.compile(r"^std::fs::(rename|remove_file|remove_dir_all|create_dir_a
                      r"|^std::io::copy$|std::io::Seek(>)?::seek$|std::io::Read(>)?::read_exact$|std::io::Write(>)?::write_all$")
 
 
+def const_strings(consts):
+    """string literals among the constants of a slice: `str` constants and the literal pieces of format_args! templates
+    (byte-string templates: maximal runs of printable ASCII)"""
+    out = []
+    for c in consts:
+        if not isinstance(c, dict):
+            continue
+        if "str" in c:
+            out.append(c["str"])
+        elif "bytes" in c:
+            run_ = ""
+            for b in list(c["bytes"]) + [0]:
+                if 0x20 <= b <= 0x7e:
+                    run_ += chr(b)
+                else:
+                    if run_:
+                        out.append(run_)
+                    run_ = ""
+    return out
+
+
 def run(ctx, rep):
     prog = ctx.prog
     for r, tx in (("C20.a", "publish sequence: complete and synced temp file, then rename"), ("C20.b", "temporary/foreign names are never listed"),
@@ -34,7 +55,7 @@ def run(ctx, rep):
     W = prog.fn(LB + "WriteBackend>::write_bytes")
     H = prog.find1(r"^<rustic_backend::local::LocalBackend as rustic_core::backend::WriteBackend>::write_bytes::write_local_file$")
     # ---- C20.a: inside the helper ----------------------------------------------------------------------
-    OPEN = call_pred(r"^std::fs::OpenOptions::open$")
+    OPEN = call_pred(r"^std::fs::OpenOptions::open$|^std::fs::File::(create|create_new)$")
     SETLEN = call_pred(r"^std::fs::File::set_len$")
     COPY = call_pred(r"^std::io::copy$")
     SYNC = call_pred(r"^std::fs::File::sync_all$")
@@ -67,6 +88,8 @@ def run(ctx, rep):
         tsw = W.term(sw)
         if tsw["k"] == "switch" and any(s[0] == "=" and s[2][0] == "discr" and s[2][1][0] == res for s in W.blocks[sw]["s"]):
             okt = [x for v, x in tsw["targets"] if v == "0"]
+            if not okt and any(v == "1" for v, x in tsw["targets"]):
+                okt = [tsw["otherwise"]]           # `if let Err(..) = helper(..) { .. }`: everything but 1 is Ok
             if okt:
                 ok_only = r not in W.reachable_from(0, cut_edges=[(sw, okt[0])])
         else:
@@ -77,11 +100,11 @@ def run(ctx, rep):
         rep.check("C20.a", "write_bytes/rename-propagated", kind in ("?", "return"), where=where(W, r), what="the result of fs::rename is `?`-propagated")
         # names: helper gets tmp name = ... + const suffix ; rename(tmp, final)
         slh = flow.backward_slice(W, op_place(th["args"][0]))
-        suffix = [c.get("str") for c in slh["consts"] if isinstance(c, dict) and "str" in c]
+        suffix = const_strings(slh["consts"])
         slr0 = flow.backward_slice(W, op_place(tr["args"][0]))
         slr1 = flow.backward_slice(W, op_place(tr["args"][1]))
-        suf0 = [c.get("str") for c in slr0["consts"] if isinstance(c, dict) and "str" in c]
-        suf1 = [c.get("str") for c in slr1["consts"] if isinstance(c, dict) and "str" in c]
+        suf0 = const_strings(slr0["consts"])
+        suf1 = const_strings(slr1["consts"])
         tmpname = bool(suffix) and any(c.endswith("LocalBackend::filename") for c in slh["calls"])
         rep.check("C20.a", "write_bytes/writes-to-temp-name", tmpname and suffix == suf0 and not suf1, where=where(W, h),
                   what=f"the data is written to <final name>+{suffix!r} and rename moves exactly that name to the final name" if tmpname and suffix == suf0 and not suf1 else
@@ -112,7 +135,7 @@ def run(ctx, rep):
         if len(joins) == 1:
             jt = joins[0][2]
             sl = flow.backward_slice(W, op_place(jt["args"][1])) if op_place(jt["args"][1]) else {"consts": [], "calls": set()}
-            sfx = [c.get("str") for c in sl["consts"] if isinstance(c, dict) and "str" in c]
+            sfx = const_strings(sl["consts"])
             okj = any(c.endswith("LocalBackend::filename") for c in sl["calls"]) and bool(sfx) and all(re.search(r"[^0-9a-fA-F]", x) for x in sfx)
         rep.check("C20.b", "temp-name-last-component", okj, where=where(W, hs[0]),
                   what="the temporary file's own name (last path component) is <final name> + a non-hex suffix: no listing can accept it, wherever the walk finds it" if okj else
